@@ -259,7 +259,9 @@ let cyclic = Cc::new_cyclic(|weak| {
             panic!("Cannot create a new Cc while tracing!");
         }
 
-        let cc = Cc::new(NewCyclicWrapper::new());
+        // Don't use Cc::new here: if the collection it may start panics, the (still uninitialized)
+        // wrapper passed by value would be dropped during unwinding, dropping an uninitialized T
+        let cc = Cc::__new_with(NewCyclicWrapper::new);
 
         // Immediately call inner_ptr and forget the Cc instance. Having a Cc instance is dangerous, since:
         // 1. The strong count will become 0
